@@ -84,8 +84,9 @@ Definition flag_set (cf : N) : bool := negb (cf =? 0).
 Definition spe (fl : bool) : N := if fl then 12 else 8.
 (* ZSTD_seekable_seekTableSize (size_t) *)
 Definition table_size (cf : N) (n : N) : N := w64 (SKIPHDR + spe (flag_set cf) * n + FOOTER).
-(* (BYTE)(checksumFlag << 7) *)
-Definition sfd_of (cf : N) : N := (cf * 128) mod 256.
+(* (BYTE)((checksumFlag != 0) << 7)   (fix 0531868: every other use of the flag is its truth value; before it the byte was
+   (BYTE)(checksumFlag << 7), 0 for every even flag) *)
+Definition sfd_of (cf : N) : N := if flag_set cf then 128 else 0.
 
 Definition entry_bytes (fl : bool) (e : logent) : list N :=
   let '(c, d, k) := e in le32 c ++ le32 d ++ (if fl then le32 k else []).
